@@ -342,8 +342,8 @@ def run(ctx):
             if cal["key"].find("<Bmca>::") < 0 or len(t["args"]) < 3:
                 continue
             lits = c.must_literals(bi)
-            some = any(l[0] == "variant" and l[2] == frozenset(["Some"]) and "find_best_announce_message" in df.tree_str(l[1])
-                       for l in lits)
+            some = any(l[0] == "variant" and l[2] in (frozenset(["Some"]), frozenset(["Continue"])) and
+                       "find_best_announce_message" in df.tree_str(l[1]) for l in lits)
             if not some:
                 continue
             found = True
